@@ -35,22 +35,31 @@ type lvDelivery struct {
 	at   uint64
 }
 
+// lvHandler: the content of a handler object is what an application configured it with (cfg) and
+// the log it writes to; which handler of the case it is the log knows by the object's pointer.
+// Handlers with the same cfg are distinct objects with deeply equal content: (level, handler)
+// means that object, on both levels.
 type lvHandler struct {
-	id  int
+	cfg int
 	log *lvLog
 }
 
 type lvLog struct {
 	mu   sync.Mutex
 	dels []lvDelivery
-	pub  uint64 // goroutine of the publication in progress
+	pub  uint64             // goroutine of the publication in progress
+	ids  map[*lvHandler]int // written before the first subscription
 }
 
 func (h *lvHandler) HandleEvent(p api.EventPayload) {
 	at := world.Stamp()
 	g := gid()
 	h.log.mu.Lock()
-	h.log.dels = append(h.log.dels, lvDelivery{h: h.id, key: p.Ski, sync: g == h.log.pub, at: at})
+	id, ok := h.log.ids[h]
+	if !ok {
+		id = -1 // an object the case never created; shows up as a delivery without subscription
+	}
+	h.log.dels = append(h.log.dels, lvDelivery{h: id, key: p.Ski, sync: g == h.log.pub, at: at})
 	h.log.mu.Unlock()
 }
 
@@ -59,11 +68,14 @@ func TestHandlerLevels(t *testing.T) {
 	lname := map[api.EventHandlerLevel]string{api.EventHandlerLevelCore: "core", api.EventHandlerLevelApplication: "application"}
 	rapid.Check(t, world.Prop(func(t *rapid.T) {
 		world.ResetEvents()
-		log := &lvLog{}
+		log := &lvLog{ids: map[*lvHandler]int{}}
 		nH := rapid.IntRange(1, 3).Draw(t, "handlers")
 		hs := make([]*lvHandler, nH)
+		cfgs := make([]int, nH)
 		for i := range hs {
-			hs[i] = &lvHandler{id: i, log: log}
+			cfgs[i] = rapid.SampledFrom([]int{0, 0, 1}).Draw(t, fmt.Sprintf("h%dcfg", i))
+			hs[i] = &lvHandler{cfg: cfgs[i], log: log}
+			log.ids[hs[i]] = i
 		}
 		type sub struct {
 			h int
@@ -76,7 +88,7 @@ func TestHandlerLevels(t *testing.T) {
 			}
 		}()
 		base := runtime.NumGoroutine()
-		var hist []string
+		hist := []string{fmt.Sprintf("content of the handler objects h0..: %v", cfgs)}
 		both, pubs, afterUnsub := false, 0, false
 		steps := rapid.IntRange(3, 14).Draw(t, "steps")
 		for i := 0; i < steps; i++ {
@@ -180,9 +192,12 @@ func TestHandlerLevels(t *testing.T) {
 		if afterUnsub {
 			labels = append(labels, "levels/publication-after-an-unsubscription")
 		}
-		world.Record(world.Hash("levels", nH, hist), both && afterUnsub, labels...)
+		if alike(cfgs) {
+			labels = append(labels, "levels/handlers-alike")
+		}
+		world.Record(world.Hash("levels", nH, cfgs, hist), both && afterUnsub, labels...)
 		if both && afterUnsub && world.WantSample() {
-			world.Sample(map[string]any{"check": "handler-levels", "handlers": nH, "history": hist})
+			world.Sample(map[string]any{"check": "handler-levels", "handlers": nH, "configs": cfgs, "history": hist})
 		}
 	}))
 }
